@@ -117,6 +117,12 @@ def run_impl(c):
             with open(data, "w", newline="") as fh:
                 fh.write(text)
             kw = {}
+            if zlib.crc32(text.encode("utf-8", "surrogatepass")) % 4 == 1:
+                # the same bytes gzipped (read in binary mode by the library): line ends, CRLF included, are still line ends
+                import gzip
+                data = os.path.join(d, "in.gff.gz")
+                with gzip.open(data, "wb") as fh:
+                    fh.write(text.encode("utf-8", "surrogatepass"))
         # every third case: a second iterator over another annotation is alive and advancing while this one is read, and
         # create_db's transform reads that other annotation too - the directives of an input are its own
         busy = zlib.crc32(text.encode("utf-8", "surrogatepass")) % 3 == 0
@@ -148,6 +154,12 @@ def run_impl(c):
             db = gffutils.create_db(data, dbfn, checklines=c["checklines"], transform=look_aside if busy else None, **kw)
             out["db_dirs"] = ["ok", list(db.directives)]
             out["db_count"] = ["ok", db.count_features_of_type()]
+            # a ready-made DataIterator handed to create_db together with a transform: the directives it has seen still arrive
+            if busy:
+                db4 = gffutils.create_db(iterators.DataIterator(data, checklines=c["checklines"], **kw), ":memory:",
+                                         checklines=c["checklines"], transform=lambda f: f)
+                if list(db4.directives) != list(db.directives):
+                    out["db_dirs"] = ["ok", ["<DataIterator+transform>"] + list(db4.directives)]
             # the same import with the dialect re-examined on every line (force_dialect_check; the importer is named, since
             # there is then no file-wide dialect to choose it by): all directives again
             if busy:
